@@ -154,7 +154,12 @@ impl GLM {
             vec![1.; n]
         };
 
-        let initial_intercept = mean(y);
+        // start at the link of the mean response: the log-link families would otherwise start at
+        // mu = exp(mean(y)), whose square overflows the information matrix for mean(y) above ~355
+        let initial_intercept = match self.family {
+            ExponentialFamily::Gaussian | ExponentialFamily::Bernoulli => mean(y),
+            _ => mean(y).ln(),
+        };
         let mut coef = vec![0.; p];
         coef[0] = initial_intercept;
 
